@@ -130,7 +130,10 @@ Containers(doc, R, t) ==
       \* ruby containers whose annotation shows nothing: only the base text is presented
       bare == {r \in up : doc.kind[r] = "ruby" /\
                  ~\E k \in ls : \E a \in Ancestors(doc, k) : doc.parent[a] = r /\ doc.kind[a] \in {"rt", "rtc"}}
-      all == up \cup {k \in 1..doc.n : doc.kind[k] \in {"rb", "rbc"} /\ doc.parent[k] \in up /\ Presentable(doc, k, R, t)}
+      keptB == {k \in 1..doc.n : doc.kind[k] \in {"rb", "rbc"} /\ doc.parent[k] \in up /\ Presentable(doc, k, R, t)}
+      \* a base inside a kept base container comes with it, also when it shows nothing itself
+      keptB2 == {k \in 1..doc.n : doc.kind[k] = "rb" /\ doc.parent[k] \in keptB /\ Presentable(doc, k, R, t)}
+      all == up \cup keptB \cup keptB2
   IN  all \ (bare \cup {k \in all : doc.kind[k] \in {"rb", "rbc"} /\ doc.parent[k] \in bare}
                    \cup {k \in all : doc.kind[k] = "rb" /\ doc.parent[k] # 0 /\ doc.parent[doc.parent[k]] \in bare})
 
